@@ -83,7 +83,7 @@ def gen_case(rng, root, force=None):
     extra_variant = None
     r = rng.random()
     if force:
-        r = 0.05 if force == "replay_plus_two_subkey_links" else 0.2
+        r = 0.05 if force in ("replay_plus_two_subkey_links", "failing_sublayout_plus_two_subkey_links") else 0.2
     if multi is None and not gpg_signer and r < 0.3:
         # TWO functionaries authorised for both steps, both their links of A presented for B, one after the other (B has
         # no evidence of its own): neither counts
@@ -108,11 +108,40 @@ def gen_case(rng, root, force=None):
                 ch.layout_keys[g.keyid] = g.pub
                 B["keys"], B["pubkeys"], B["threshold"] = [shared, g], [shared.keyid, g.keyid], 2
                 B["links"] = [dict(A["links"][0])]
+                if force == "failing_sublayout_plus_two_subkey_links" or (not force and rng.random() < 0.4):
+                    # ... or, instead of the replayed link, the first functionary hands in a delegated layout whose own
+                    # links are missing: it does not verify, and nothing of it counts
+                    sub = scen.gen_chain(rng, root, n_steps=1, n_insp=0, thresholds=(1,), max_funcs=1, owners=[shared],
+                                         prefix=B["name"] + "sub", fmt_mode="mixed")
+                    sub.closed = False
+                    sub.steps[0]["rules"] = ([["ALLOW", "*"]], [["ALLOW", "*"]])
+                    sub.steps[0]["materials"], sub.steps[0]["products"] = B["materials"], B["products"]
+                    sub.steps[0]["links"] = []
+                    B["links"] = [scen.link_spec(shared, rng.choice(["metablock", "dsse"]), B["name"], B["materials"], B["products"], sub=sub)]
+                    extra_variant_name = "failing_sublayout_plus_two_subkey_links"
+                else:
+                    extra_variant_name = "replay_plus_two_subkey_links"
                 for sid in subs[:2]:
                     sk = W.gpg_key("two_subs", sid)
                     B["links"].append(scen.link_spec(sk, "metablock", B["name"], B["materials"], B["products"], signer=sk, kid=sk.keyid))
-                keep_own = "one gpg functionary with two subkey links, threshold 2, plus a replayed link"
-                extra_variant = "replay_plus_two_subkey_links"
+                keep_own = "one gpg functionary with two subkey links, threshold 2, plus %s" % (
+                    "a replayed link" if extra_variant_name.startswith("replay") else "a delegated layout that does not verify")
+                extra_variant = extra_variant_name
+    if multi is None and not gpg_signer and extra_variant is None and (force == "decoy_then_replay" or (not force and rng.random() < 0.2)):
+        # B lists another functionary FIRST, whose file for B is a decoy: it names B and carries no valid signature
+        # (unsigned / signature altered); after it comes the validly signed link of A under the shared functionary's
+        # name. What is compared with the step name is the signed content of the link that is counted - not the decoy's.
+        decoy = rng.choice([k for k in pool if k is not shared and k is not second])
+        for s_ in ch.steps:
+            s_["rules"] = ([["ALLOW", "*"]], [["ALLOW", "*"]])
+        ch.closed = notice = False
+        ch.layout_keys[decoy.keyid] = decoy.pub
+        B["keys"], B["pubkeys"], B["threshold"] = [decoy, shared], [decoy.keyid, shared.keyid], 1
+        B["links"] = [scen.link_spec(decoy, rng.choice(["metablock", "dsse"]), B["name"], B["materials"], B["products"],
+                                     tamper=rng.choice(["unsigned", "sig", "content_fixed"])),
+                      dict(replay_link)]
+        keep_own = "none (an unsigned decoy naming the step, listed first)"
+        extra_variant = "decoy_then_replay"
     if how == "rename" and extra_variant is None:
         A["links"] = []
     desc = {"steps": n, "from": A["name"], "to": B["name"], "how": how, "own_evidence": keep_own,
